@@ -614,6 +614,18 @@ func (p *parser) readDirUse() (du *DirectiveUse, err error) {
 	if du.Directive == nil {
 		return nil, parseError(p.line, p.col, "directive missing")
 	}
+	switch du.Directive.(type) {
+	case *Directive, *Ref:
+	default:
+		// A type can have the name of a directive, the name after @ is
+		// that of the directive.
+		name := du.Directive.Name()
+		if d := p.root.dirs.get(name); d != nil {
+			du.Directive = d
+		} else {
+			du.Directive = &Ref{Base: Base{N: name}}
+		}
+	}
 	if p.onDeck == '(' {
 		_, _ = p.readByte() // re-read opening (
 		// Read the arguments.
